@@ -1,7 +1,23 @@
-"""C17 — write padding only appends zeros and is invisible to the device."""
-from common import Prop, hexs, unhex
+"""C17 — write padding only appends zeros and is invisible to the device.
+
+Line kinds (K = compared with the Lean driver, O = judged by the independent oracle below):
+  pad align <p> <hex>          one write of <hex> under padding p through a recording interface
+  pad seq <p>:<hex>,…          writes under changing paddings on ONE interface object
+  recv handle <hex>            the device-side receiver on a (padded) write
+  padreq seq <p>:<req>;…       ONE real Parser builds each request, ONE real interface writes it under padding p, ONE real
+                               ParseRecv gets what was written (requests: see lean/NxsModel/Driver/Pad.lean); the oracle also
+                               sends the same history through a real DummyDev and compares it with an unpadded twin
+  dummy run <def> <ops>        requests written to the real DummyDev (write padding = rx padding of the definition) under the
+                               virtual-time runtime of C14; the oracle compares with an unpadded twin
+"""
+from common import Prop, hexs, unhex, exc_name
 import genlib as g
+from ref import ref_frame
 from props.C02 import Recorder
+
+ACK0 = ref_frame(4, b"\0\0\0\0")
+CBNAME = {2: "cmninfo", 3: "chinfo", 5: "start", 6: "enable", 7: "div"}
+PADS = [0, 1, 2, 3, 4, 5, 7, 8, 16, 24, 32, 64, 100, 255]
 
 
 def mk_intf(log):
@@ -16,18 +32,332 @@ def mk_intf(log):
     return Rec()
 
 
+# ---------------------------------------------------------------------------------------------------------------------
+# payloads with zeros
+# ---------------------------------------------------------------------------------------------------------------------
+def payload(kind, n, p, salt=0):
+    """kind 0: no zero byte; 1: all zero; 2: trailing zeros; 3: interior zeros (last byte non-zero); 4: mixed"""
+    if kind == 1:
+        return bytes(n)
+    nz = bytes(((i * 7 + p + salt) & 0xFF) or 1 for i in range(n))
+    if kind == 0 or n == 0:
+        return nz
+    if kind == 2:
+        tz = min(n, 1 + salt % max(p, 1))
+        return nz[:n - tz] + bytes(tz)
+    if kind == 3:
+        return bytes(0 if (i % 3 == 1 and i != n - 1) else b for i, b in enumerate(nz))
+    return bytes((i * 37 + salt * 11 + p) & 0xFF if i % 2 else 0 for i in range(n))
+
+
+# ---------------------------------------------------------------------------------------------------------------------
+# client requests: tokens, the real builders, and the protocol encoding written out independently
+# ---------------------------------------------------------------------------------------------------------------------
+def parse_req(tok):
+    t = tok.split(".")
+    if t[0] in ("s0", "s1"):
+        return ("start", t[0] == "s1")
+    if t[0] == "c":
+        return ("cmninfo",)
+    if t[0] == "h":
+        return ("chinfo", int(t[1]))
+    if t[0] == "e":
+        return ("en1", int(t[1]), int(t[2]), bool(int(t[3])))
+    if t[0] == "E":
+        return ("env", int(t[1]), [] if t[2] == "-" else [c == "1" for c in t[2]])
+    if t[0] == "d":
+        return ("div1", int(t[1]), int(t[2]), int(t[3]))
+    if t[0] == "D":
+        return ("divv", int(t[1]), [] if t[2] == "-" else [int(x) for x in t[2].split("/")])
+    raise ValueError(tok)
+
+
+def req_tok(r):
+    k = r[0]
+    if k == "start":
+        return "s1" if r[1] else "s0"
+    if k == "cmninfo":
+        return "c"
+    if k == "chinfo":
+        return f"h.{r[1]}"
+    if k == "en1":
+        return f"e.{r[1]}.{r[2]}.{int(r[3])}"
+    if k == "env":
+        return f"E.{r[1]}." + ("".join("1" if b else "0" for b in r[2]) or "-")
+    if k == "div1":
+        return f"d.{r[1]}.{r[2]}.{r[3]}"
+    return f"D.{r[1]}." + ("/".join(str(v) for v in r[2]) or "-")
+
+
+def _vec(vs):
+    vs = list(vs)
+    return repr(vs) if len(vs) <= 12 else f"[{', '.join(repr(v) for v in vs[:8])}, ... {len(vs)} values, see the case line]"
+
+
+def describe(r):
+    k = r[0]
+    return {"start": lambda: f"frame_start({r[1]})", "cmninfo": lambda: "frame_cmninfo()", "chinfo": lambda: f"frame_chinfo({r[1]})",
+            "en1": lambda: f"frame_enable(({r[2]}, {r[3]}), {r[1]})", "env": lambda: f"frame_enable({_vec(bool(b) for b in r[2])}, {r[1]})",
+            "div1": lambda: f"frame_div(({r[2]}, {r[3]}), {r[1]})", "divv": lambda: f"frame_div({_vec(r[2])}, {r[1]})"}[k]()
+
+
+def build(P, r):
+    """the real client builder"""
+    k = r[0]
+    if k == "start":
+        return P.frame_start(r[1])
+    if k == "cmninfo":
+        return P.frame_cmninfo()
+    if k == "chinfo":
+        return P.frame_chinfo(r[1])
+    if k == "en1":
+        return P.frame_enable((r[2], r[3]), r[1])
+    if k == "env":
+        return P.frame_enable(list(r[2]), r[1])
+    if k == "div1":
+        return P.frame_div((r[2], r[3]), r[1])
+    return P.frame_div(list(r[2]), r[1])
+
+
+def spec_of(r):
+    """(frame id, payload) the NxScope protocol prescribes, or None when the arguments are outside what a client can ask"""
+    k = r[0]
+    if k == "start":
+        return 5, bytes([int(r[1])])
+    if k == "cmninfo":
+        return 2, b""
+    if k == "chinfo":
+        return (3, bytes([r[1]])) if 0 <= r[1] <= 255 else None
+    n = r[1]
+    if not 1 <= n <= 255:
+        return None
+    fid = 6 if k in ("en1", "env") else 7
+    if k in ("en1", "div1"):
+        c, v = r[2], int(r[3])
+        return (fid, bytes([0, c, v])) if 0 <= c < n and 0 <= v <= 255 else None
+    vs = [int(v) for v in r[2]]
+    if len(vs) != n or any(not 0 <= v <= 255 for v in vs):
+        return None
+    return (fid, bytes([2, 0, vs[0]])) if len(set(vs)) == 1 else (fid, bytes([1, 0] + vs))
+
+
+def apply_spec(r, en, div, started):
+    """state of a conforming device after the request (channel vectors en/div, stream flag)"""
+    k = r[0]
+    en, div = list(en), list(div)
+    if k == "start":
+        started = bool(r[1])
+    elif k == "en1":
+        en[r[2]] = bool(r[3])
+    elif k == "env":
+        en = [bool(b) for b in r[2]]
+    elif k == "div1":
+        div[r[2]] = r[3]
+    elif k == "divv":
+        div = list(r[2])
+    return en, div, started
+
+
+def device_ok(r, n):
+    """the request is one a client of an n-channel device issues (the DummyDev asserts on unknown channels)"""
+    if spec_of(r) is None:
+        return False
+    if r[0] == "chinfo":
+        return r[1] < n
+    return r[0] in ("start", "cmninfo") or r[1] == n
+
+
+_ZT = {}
+
+
+def zero_tail(n):
+    """requests of an n-channel client whose frame ends in 0x00 (CRC low byte zero) or whose CRC high byte is zero"""
+    if n in _ZT:
+        return _ZT[n]
+    cands = [("chinfo", c) for c in range(256)]
+    for c in range(min(n, 12)):
+        cands += [("en1", n, c, False), ("en1", n, c, True)]
+        cands += [("div1", n, c, v) for v in range(256)]
+    cands += [("divv", n, [v] * n) for v in range(256)]
+    if n <= 11:
+        cands += [("env", n, [bool(m >> i & 1) for i in range(n)]) for m in range(1 << n)]
+    else:
+        cands += [("env", n, [bool((m * 2654435761 >> (i % 31)) & 1) for i in range(n)]) for m in range(1, 600)]
+        cands += [("divv", n, [(m * 7 + i * i) & 0xFF for i in range(n)]) for m in range(600)]
+    low, high = [], []
+    for r in cands:
+        f = ref_frame(*spec_of(r))
+        if f[-1] == 0:
+            low.append(r)
+        elif f[-2] == 0:
+            high.append(r)
+    _ZT[n] = (low, high)
+    return _ZT[n]
+
+
+def gen_req(rng, n):
+    k = rng.choice(["start", "start", "cmninfo", "cmninfo", "chinfo", "chinfo", "en1", "env", "envall", "div1", "divv", "divvall", "zt", "zt"])
+    if k == "start":
+        return ("start", rng.random() < 0.5)
+    if k == "cmninfo":
+        return ("cmninfo",)
+    if k == "chinfo":
+        return ("chinfo", rng.randrange(n))
+    if k == "en1":
+        return ("en1", n, rng.randrange(n), rng.random() < 0.6)
+    if k == "env":
+        return ("env", n, [rng.random() < 0.5 for _ in range(n)])
+    if k == "envall":
+        return ("env", n, [rng.random() < 0.5] * n)
+    if k == "div1":
+        return ("div1", n, rng.randrange(n), rng.choice([0, 1, 30, 127, 128, 255, rng.randrange(256)]))
+    if k == "divv":
+        return ("divv", n, [rng.choice([0, 0, 1, 200, rng.randrange(256)]) for _ in range(n)])
+    if k == "divvall":
+        return ("divv", n, [rng.choice([0, 3, 120, 255])] * n)
+    low, high = zero_tail(n)
+    pool = [r for r in (low if rng.random() < 0.75 else high) if device_ok(r, n)]
+    return rng.choice(pool) if pool else ("cmninfo",)
+
+
+def gen_padreq(rng, n, length=None):
+    items, issued = [], []
+    for _ in range(length or rng.randrange(3, 9)):
+        p = rng.choice(PADS + [rng.randrange(256)])
+        r = rng.choice(issued) if issued and rng.random() < 0.45 else gen_req(rng, n)
+        issued.append(r)
+        items.append(f"{p}:{req_tok(r)}")
+    return "padreq seq " + ";".join(items)
+
+
+def gen_dummy_line(rng):
+    n = 11
+    rxp = rng.choice([0, 1, 3, 4, 5, 16, 16, 24, 255])
+    ops = ["0a"]
+    for _ in range(rng.randrange(2, 7)):
+        r = gen_req(rng, n)
+        ops += ["0w" + ref_frame(*spec_of(r)).hex(), "0R", "0r"]
+        if rng.random() < 0.4:
+            ops.append("0d")
+    ops += ["0d", "0z"]
+    return f"dummy run D,{rng.choice([3, 3, 3, 1, 2, 0])},{rxp},1 " + ";".join(ops)
+
+
+# ---------------------------------------------------------------------------------------------------------------------
+# the real DummyDev driven synchronously (its receive-thread body is called once per queued write)
+# ---------------------------------------------------------------------------------------------------------------------
+class SyncDummy:
+    def __init__(self, n, flags, rxp):
+        from nxslib.intf.dummy import DummyDev
+        from nxslib.dev import DeviceChannel
+        if n is None:
+            self.dev = DummyDev(flags=flags, rxpadding=rxp, stream_sleep=0.0, stream_snum=1)
+        else:
+            chans = [DeviceChannel(i, 10, 1, f"c{i}") for i in range(n)]
+            self.dev = DummyDev(chmax=n, flags=flags, channels=chans, rxpadding=rxp, stream_sleep=0.0, stream_snum=1)
+        self.dev._thrd_recv.thread_start = lambda: None
+        self.dev._thrd_stream.thread_start = lambda: None
+        self.dev.start()
+
+    def request(self, p, data):
+        """set the write padding, write, let the device's receiver run; -> (responses, enables, dividers, stream flag)"""
+        dev = self.dev
+        dev.write_padding = p
+        dev.write(data)
+        got = []
+        if dev._qwrite.qsize() == 0:
+            got.append("nothing-reached-the-device")
+        while dev._qwrite.qsize():
+            try:
+                dev._thread_recv()
+            except Exception as e:  # noqa: BLE001
+                got.append("receiver-raised-" + exc_name(e))
+        while dev._qread.qsize():
+            got.append(dev.read().hex())
+        dd = dev._dummydev
+        return got, [bool(x) for x in dd.channels_en], [int(x) for x in dd.channels_div], bool(dev._stream_started.is_set())
+
+    def close(self):
+        try:
+            self.dev.stop()
+        except Exception:  # noqa: BLE001
+            pass
+
+
+def dummy_diff(n, flags, rxp, seq, what):
+    """seq: list of (padding, request bytes or a thunk building them, label, request-or-None).  The same requests go to a
+    device written to under the paddings and to a twin that always gets the unpadded request with padding 0."""
+    A, B = SyncDummy(n, flags, rxp), SyncDummy(n, flags, rxp)
+    try:
+        hist = []
+        en0, div0, st0 = B.request(0, b"")[1:]
+        A.request(0, b"")
+        state = (en0, div0, st0)
+        for p, data, label, r in seq:
+            hist.append(p)
+            raw = data() if callable(data) else data
+            plain = bytes(raw)
+            a = A.request(p, raw)
+            b = B.request(0, plain)
+            if a != b:
+                return {"key": "dummy-padded-differs",
+                        "what": f"{what}: DummyDev with write padding {p} (padding history {hist[:-1]}) reacts to {label} = {plain.hex()} "
+                                f"differently from the unpadded request",
+                        "expected": f"responses {b[0]} en {bits(b[1])} div {b[2]} stream {b[3]}",
+                        "observed": f"responses {a[0]} en {bits(a[1])} div {a[2]} stream {a[3]}"}
+            if r is not None:
+                state = apply_spec(r, *state)
+                exp_resp = None
+                if r[0] not in ("cmninfo", "chinfo"):
+                    exp_resp = [ACK0.hex()] if flags & 2 else []
+                if (exp_resp is not None and a[0] != exp_resp) or (a[1], a[2], a[3]) != tuple(state) or \
+                        (exp_resp is None and (len(a[0]) != 1 or a[0][0].startswith("re") or a[0][0].startswith("no"))):
+                    return {"key": "dummy-reaction",
+                            "what": f"{what}: DummyDev with write padding {p} (padding history {hist[:-1]}) does not do what {label} "
+                                    f"= {plain.hex()} asks for",
+                            "expected": f"responses {exp_resp if exp_resp is not None else 'one answer frame'} en {bits(state[0])} "
+                                        f"div {state[1]} stream {state[2]}",
+                            "observed": f"responses {a[0]} en {bits(a[1])} div {a[2]} stream {a[3]}"}
+        return None
+    finally:
+        A.close()
+        B.close()
+
+
+def bits(l):
+    return "".join("1" if b else "0" for b in l) or "-"
+
+
+def shape_ok(out, d, p):
+    k = len(out) - len(d)
+    return out[:len(d)] == d and out[len(d):] == bytes(max(k, 0)) and \
+        ((p == 0 and k == 0) or (p > 0 and 0 <= k < p and len(out) % p == 0))
+
+
+def rstr(s):
+    return s.replace(" ", ":")
+
+
+# ---------------------------------------------------------------------------------------------------------------------
 class C17(Prop):
     id = "C17"
     lean_module = "NxsModel.Props.C17"
-    rule = ("CommInterfaceCommon.write through a recording _write for every padding 0..255 x lengths 0..600 "
-            "(thorough; sampled lengths in quick); every request kind x padding through recv_handle with recorded "
-            "callbacks; padding-only writes; distinct = distinct (op,input); non-trivial = padding > 0")
+    rule = ("CommInterfaceCommon.write through a recording _write for every padding 0..255 x lengths 0..600 (thorough; sampled "
+            "lengths in quick) with payloads without zeros, all-zero, with trailing and with interior zeros, and at lengths k*p, "
+            "k*p+-1; padding-change sequences on one interface object; every request kind x padding through recv_handle with "
+            "recorded callbacks, including real requests whose CRC low / high byte is 0x00; padding-only writes; the real "
+            "composition: ONE Parser builds every request kind (start/stop, cmninfo, chinfo, enable/div single, all, bulk; channel "
+            "counts 1..255) written by ONE interface under every padding 0..255 and under changing paddings with repeated requests, "
+            "what was written given to ONE ParseRecv; the same histories through the real DummyDev (synchronously in the oracle, "
+            "under the virtual-time runtime in the correspondence) against an unpadded twin; distinct = distinct (op,input); "
+            "non-trivial = padding > 0 somewhere")
 
     def __init__(self):
         self.log = []
         self.intf = mk_intf(self.log)
         self.rec = Recorder()
 
+    # -- generators ---------------------------------------------------------------------------------------------------
     def cases(self, rng, tier):
         T = tier == "thorough"
         lens = range(0, 601) if T else list(range(0, 40)) + [63, 64, 65, 127, 128, 255, 256, 257, 511, 512, 600]
@@ -35,26 +365,108 @@ class C17(Prop):
             for n in (lens if (T or p < 20 or p % 16 == 0 or p > 250) else [0, 1, p - 1, p, p + 1, 2 * p, 2 * p + 1, rng.randrange(600)]):
                 if n < 0:
                     continue
-                d = bytes((i * 7 + p) & 0xFF or 1 for i in range(n))
-                yield f"pad align {p} {hexs(d)}", "align"
+                kind = (n + p) % 5
+                yield f"pad align {p} {hexs(payload(kind, n, p, n))}", "align" if kind == 0 else "align-zeros"
+        # payloads that end in / consist of / contain zero bytes at lengths k*p and k*p +- 1
+        for p in (range(1, 256) if T else list(range(1, 18)) + [24, 31, 32, 33, 64, 100, 127, 128, 129, 200, 254, 255]):
+            for k in (1, 2, 3) if (T or p < 40) else (1, 2):
+                for n in (k * p - 1, k * p, k * p + 1):
+                    for kind, salt in ((1, 0), (2, 0), (2, p - 1), (2, max(p // 2, 1)), (3, 0), (4, k)):
+                        if n >= 1:
+                            yield f"pad align {p} {hexs(payload(kind, n, p, salt))}", "align-zeros-boundary"
         for _ in range(400 if T else 80):
             f = g.request_frame(rng)
             k = rng.randrange(0, 40)
             yield f"recv handle {hexs(f)}", "request"
             yield f"recv handle {hexs(f + bytes(k))}", "request-padded"
+        # real client requests whose frame ends in 0x00 / whose CRC high byte is 0x00, alone and padded
+        for n in (11, 3, 255):
+            low, high = zero_tail(n)
+            for r in (low + high if T else low[:24] + high[:8]):
+                f = ref_frame(*spec_of(r))
+                yield f"recv handle {hexs(f)}", "request-zero-crc"
+                for k in (1, 2, 7, 15, 16, 254) if T else (1, 7, rng.randrange(1, 255)):
+                    yield f"recv handle {hexs(f + bytes(k))}", "request-zero-crc-padded"
         for k in range(0, 70):
             yield f"recv handle {hexs(bytes(k))}", "padding-only"
         # sequences of padding changes and writes on ONE interface object (stale cached state)
-        for _ in range(400 if T else 80):
+        low11 = [ref_frame(*spec_of(r)) for r in zero_tail(11)[0]]
+        for it in range(400 if T else 80):
             items = []
             for _ in range(rng.randrange(2, 7)):
                 p = rng.choice([0, 1, 2, 3, 4, 7, 8, 16, 32, 64, 255, rng.randrange(256)])
                 n = rng.choice([0, 1, 5, 6, 7, 9, 16, rng.randrange(0, 70)])
-                items.append(f"{p}:{hexs(bytes((i * 5 + p) & 0xFF or 1 for i in range(n)))}")
+                if it % 4 == 3 and rng.random() < 0.5:
+                    d = rng.choice(low11)
+                else:
+                    d = payload((it + len(items)) % 5, n, p, it)
+                items.append(f"{p}:{hexs(d)}")
             yield "pad seq " + ",".join(items), "align-sequence"
+        # the real composition Parser -> interface -> receiver --------------------------------------------------------
+        # every padding value x every request kind (one long-lived Parser / interface / receiver per line)
+        for p in range(256):
+            n = (1, 2, 3, 8, 11, 32)[p % 6]
+            rs = [("cmninfo",), ("start", True), ("start", False), ("chinfo", p % n), ("chinfo", p),
+                  ("en1", n, p % n, bool(p & 1)), ("env", n, [bool((p >> (i % 8)) & 1) for i in range(n)] if n > 1 else [True]),
+                  ("env", n, [bool(p & 2)] * n), ("div1", n, (p // 3) % n, p), ("divv", n, [(p + i * i) & 0xFF for i in range(n)]),
+                  ("divv", n, [p] * n), ("cmninfo",), ("start", True)]
+            yield "padreq seq " + ";".join(f"{p}:{req_tok(r)}" for r in rs), "compose-every-padding"
+        # changing paddings, repeated requests
+        for it in range(600 if T else 150):
+            n = rng.choice([1, 2, 3, 8, 11, 11, 11, 32, 255])
+            yield gen_padreq(rng, n), "compose-sequence"
+        # parameter-less requests re-issued under every ordered pair of paddings
+        pp = PADS if T else [0, 3, 4, 5, 16, 255]
+        for p1 in pp:
+            for p2 in pp:
+                yield (f"padreq seq {p1}:c;{p2}:c;{p1}:s1;{p2}:s1;{p1}:s0;{p2}:s0;0:c;0:s1;0:s0"), "compose-repeat-pair"
+        # long bulk requests (more than 256 bytes) under paddings that do and do not divide 256
+        for p in (PADS + [6, 12, 17, 96, 200, 254]) if T else (0, 3, 16, 24, 100, 255):
+            e = ("env", 255, [bool(i % 3) for i in range(255)])
+            d = ("divv", 255, [(i * 5 + p) & 0xFF for i in range(255)])
+            yield f"padreq seq {p}:{req_tok(e)};{p}:{req_tok(d)};{p}:c", "compose-long-bulk"
+        # requests whose CRC ends in 0x00, under several paddings in a row
+        for n in (11, 3, 255):
+            low, high = zero_tail(n)
+            for r in (low + high[:10] if T else low[:16] + high[:4]):
+                if device_ok(r, n) or r[0] == "chinfo":
+                    ps = [16, 0, 4, 255, 3] if T else [16, 0, rng.choice([3, 4, 255])]
+                    yield "padreq seq " + ";".join(f"{p}:{req_tok(r)}" for p in ps), "compose-zero-crc"
+        # builders that refuse (nothing may be written)
+        for tok in ("h.256", "h.300", "e.4.256.1", "d.4.1.256", "E.4.10", "D.3.1/2", "D.2.1/256", "E.0.-", "D.0.-"):
+            yield f"padreq seq 16:c;16:{tok};5:{tok};5:c", "compose-refused"
+        # the real DummyDev under the virtual-time runtime, written to with its write padding configured
+        for _ in range(300 if T else 60):
+            yield gen_dummy_line(rng), "dummy-device"
 
+    # -- real code ----------------------------------------------------------------------------------------------------
     def impl(self, line):
         t = line.split(" ")
+        if t[0] == "dummy":
+            from props.C14 import impl_line
+            return impl_line(line)
+        if t[0] == "padreq":
+            from nxslib.proto.parse import Parser
+            P = Parser()
+            log = []
+            intf = mk_intf(log)
+            rec = Recorder()
+            outs = []
+            for it in t[2].split(";"):
+                p, tok = it.split(":")
+                intf.write_padding = int(p)
+                n0 = len(log)
+                try:
+                    x = build(P, parse_req(tok))
+                except Exception as e:  # noqa: BLE001
+                    outs.append("err:" + ("assert" if isinstance(e, AssertionError) else exc_name(e)))
+                    continue
+                intf.write(x)
+                if len(log) != n0 + 1:
+                    outs.append(f"writes:{len(log) - n0}:" + "+".join(hexs(w) for w in log[n0:]))
+                    continue
+                outs.append(hexs(log[-1]) + "|" + rstr(rec.handle(log[-1])))
+            return "ok " + ";".join(outs)
         if t[0] == "pad" and t[1] == "seq":
             log = []
             intf = mk_intf(log)
@@ -67,15 +479,25 @@ class C17(Prop):
             self.intf.write_padding = int(t[2])
             self.log.clear()
             self.intf.write(unhex(t[3]))
-            assert len(self.log) == 1
+            if len(self.log) != 1:
+                return f"writes:{len(self.log)}:" + "+".join(hexs(w) for w in self.log)
             return "ok " + hexs(self.log[0])
         return self.rec.handle(unhex(t[2]))
 
     def nontrivial(self, line, out):
-        return not line.startswith("pad align 0 ")
+        if line.startswith("pad align 0 "):
+            return False
+        if line.startswith("padreq seq "):
+            return any(not it.startswith("0:") for it in line.split(" ")[2].split(";"))
+        return True
 
+    # -- the property, judged on the real code ------------------------------------------------------------------------
     def oracle(self, line, impl_out=None):
         t = line.split(" ")
+        if t[0] == "padreq":
+            return self.oracle_padreq(t[2])
+        if t[0] == "dummy":
+            return self.oracle_dummy(t[2], t[3])
         if t[0] == "pad" and t[1] == "seq":
             log = []
             intf = mk_intf(log)
@@ -84,15 +506,13 @@ class C17(Prop):
                 p, h = it.split(":")
                 p, d = int(p), unhex(h)
                 hist.append(p)
+                n0 = len(log)
                 intf.write_padding = p
                 intf.write(d)
-                out = log[-1]
-                k = len(out) - len(d)
-                ok = out[:len(d)] == d and out[len(d):] == bytes(max(k, 0)) and \
-                    ((p == 0 and k == 0) or (p > 0 and 0 <= k < p and len(out) % p == 0))
-                if not ok:
-                    return {"key": "align-sequence", "what": f"write of {len(d)} bytes with padding {p} after padding history {hist[:-1]}",
-                            "expected": "d ++ k zeros, k < p, p | len", "observed": f"len {len(out)} tail {hexs(out[len(d):])[:40]}"}
+                out = b"".join(log[n0:])
+                if len(log) != n0 + 1 or not shape_ok(out, d, p):
+                    return {"key": "align-sequence", "what": f"write of {len(d)} bytes ({hexs(d)[:60]}) with padding {p} after padding history {hist[:-1]}",
+                            "expected": "one write = d ++ k zeros, k < p, p | len", "observed": f"{len(log) - n0} write(s), len {len(out)}: {hexs(out)[:120]}"}
             return None
         if t[0] == "pad":
             p, d = int(t[2]), unhex(t[3])
@@ -100,13 +520,10 @@ class C17(Prop):
             intf = mk_intf(log)
             intf.write_padding = p
             intf.write(d)
-            out = log[0]
-            k = len(out) - len(d)
-            ok = out[:len(d)] == d and out[len(d):] == bytes(max(k, 0)) and \
-                ((p == 0 and k == 0) or (p > 0 and 0 <= k < p and len(out) % p == 0))
-            if not ok:
-                return {"key": "align", "what": f"write with padding {p} of {len(d)} bytes", "expected": "d ++ k zeros, k < p, p | len",
-                        "observed": f"len {len(out)} tail {hexs(out[len(d):])[:40]}"}
+            out = b"".join(log)
+            if len(log) != 1 or not shape_ok(out, d, p):
+                return {"key": "align", "what": f"write with padding {p} of {len(d)} bytes ({hexs(d)[:60]})", "expected": "one write = d ++ k zeros, k < p, p | len",
+                        "observed": f"{len(log)} write(s), len {len(out)}: {hexs(out)[:120]}"}
             return None
         d = unhex(t[2])
         stripped = d.rstrip(b"\0")
@@ -125,6 +542,80 @@ class C17(Prop):
                 return {"key": "padded-differs", "what": "receiver reacts differently to the padded request",
                         "expected": ri, "observed": r0, "unpadded": hexs(d[:i])}
         return None
+
+    def oracle_padreq(self, spec):
+        from nxslib.proto.parse import Parser
+        items = [(int(p), parse_req(tok)) for p, tok in (it.split(":") for it in spec.split(";"))]
+        P = Parser()
+        log = []
+        intf = mk_intf(log)
+        rec = Recorder()
+        hist = []
+        for idx, (p, r) in enumerate(items):
+            hist.append(p)
+            where = f"item {idx}: {describe(r)} under write padding {p} (one Parser / interface; earlier paddings {hist[:-1]})"
+            sp = spec_of(r)
+            intf.write_padding = p
+            n0 = len(log)
+            try:
+                x = build(P, r)
+            except Exception as e:  # noqa: BLE001
+                if sp is not None:
+                    return {"key": "request-refused", "what": where, "expected": "a request", "observed": "builder raised " + type(e).__name__}
+                if len(log) != n0:
+                    return {"key": "refused-but-written", "what": where, "expected": "nothing written", "observed": hexs(log[-1])}
+                continue
+            snap = bytes(x)
+            if sp is not None:
+                exp = ref_frame(*sp)
+                if snap != exp:
+                    return {"key": "request-bytes", "what": where + ": the request handed to write() is not the protocol's encoding",
+                            "expected": exp.hex(), "observed": snap.hex()}
+            fresh = bytes(build(Parser(), r))
+            if snap != fresh:
+                return {"key": "request-not-fresh", "what": where + ": the long-lived Parser returns other bytes than a fresh Parser",
+                        "expected": fresh.hex(), "observed": snap.hex()}
+            intf.write(x)
+            out = b"".join(log[n0:])
+            if len(log) != n0 + 1 or not shape_ok(out, snap, p):
+                return {"key": "request-align", "what": where + f": request {snap.hex()[:80]} ({len(snap)} bytes)",
+                        "expected": "one write = request ++ k zeros, k < p, p | len",
+                        "observed": f"{len(log) - n0} write(s), {len(out)} bytes: {out.hex()[:160]}"}
+            r_un = Recorder().handle(snap)
+            r_pad = rec.handle(out)
+            if sp is not None:
+                want = f"fired {CBNAME[sp[0]]} {hexs(sp[1])}"
+                if r_un != want:
+                    return {"key": "request-reaction", "what": where + f": receiver on the unpadded request {snap.hex()}", "expected": want, "observed": r_un}
+            if r_pad != r_un:
+                return {"key": "padded-differs", "what": where + f": receiver on what was written {out.hex()[:160]} vs on the request alone",
+                        "expected": r_un, "observed": r_pad}
+        # the same history through the real DummyDev (requests built by one long-lived Parser) against an unpadded twin
+        ns = {r[1] for _, r in items if r[0] not in ("start", "cmninfo", "chinfo")}
+        n = ns.pop() if len(ns) == 1 else (11 if not ns else None)
+        if n is None or not 1 <= n <= 255:
+            return None
+        P2 = Parser()
+        seq = [(p, (lambda r=r: build(P2, r)), describe(r), r) for p, r in items if device_ok(r, n)]
+        if not seq:
+            return None
+        return dummy_diff(n, 3, 16, seq, "one Parser, one DummyDev")
+
+    def oracle_dummy(self, defs, ops):
+        t = defs.split(",")
+        if t[0] != "D" or "+" in defs:
+            return None
+        flags, rxp = int(t[1]), int(t[2])
+        seq = [(rxp, unhex(o[2:]), "the request", None) for o in ops.split(";") if o[1] == "w"]
+        return dummy_diff(None, flags, rxp, seq, f"default DummyDev(flags={flags}, rxpadding={rxp})")
+
+    def search_cases(self, rng):
+        out = []
+        for _ in range(300):
+            out.append((gen_padreq(rng, rng.choice([1, 2, 3, 8, 11, 11, 32, 255])), "search-compose"))
+        for _ in range(60):
+            out.append((gen_dummy_line(rng), "search-dummy"))
+        return out
 
 
 PROP = C17()
